@@ -34,8 +34,13 @@ def make_like(cfg, c):
     hole, blobs, bimodal = cfg.get("hole", False), cfg.get("blobs", False), cfg.get("bimodal", False)
     mu = MU_SEP if bimodal else MU
 
+    tiny = cfg.get("tiny", False)
+
     def base(x):
         if hole and x[0] < -3.0:
+            return -np.inf
+        if tiny and float(np.max(np.abs(x - mu))) >= 0.6:
+            # support = a box of prior probability (1.2/8)^2 = 2.25 %: most warm-up batches of 16 hold no finite draw at all
             return -np.inf
         a = -0.5 * float(np.sum((x - mu) ** 2)) / 0.5
         if bimodal:
